@@ -42,6 +42,11 @@ impl PublishedCursorReader<'_> {
         PublishedCursorReader(cursor)
     }
 
+    #[cfg(feature = "verif")]
+    pub(crate) fn verif_new(cursor: &AtomicUsize) -> PublishedCursorReader<'_> {
+        PublishedCursorReader(cursor)
+    }
+
     #[inline]
     pub(crate) fn get(self) -> usize {
         self.0.load(Ordering::Acquire)
